@@ -539,7 +539,7 @@ func lexLeftDelim(l *lexer) stateFn {
 // } has already been read.
 func lexRightDelim(l *lexer) stateFn {
 	if l.doubleDelim && l.next() != '}' {
-		return l.errorf("expected double closing braces in tag")
+		return l.errorfAt(l.start, "expected double closing braces in tag")
 	}
 	l.emit(itemRightDelim)
 	return lexText
@@ -550,7 +550,7 @@ func lexRightDelim(l *lexer) stateFn {
 func lexRightDelimEnd(l *lexer) stateFn {
 	l.next()
 	if l.doubleDelim && l.next() != '}' {
-		return l.errorf("expected double closing braces in tag")
+		return l.errorfAt(l.start, "expected double closing braces in tag")
 	}
 	l.emit(itemRightDelimEnd)
 	return lexText
@@ -935,7 +935,7 @@ func lexCss(l *lexer) stateFn {
 	l.emit(itemText)
 	l.next()
 	if l.doubleDelim && l.next() != '}' {
-		return l.errorf("expected double closing braces in tag")
+		return l.errorfAt(l.start, "expected double closing braces in tag")
 	}
 	l.emit(itemRightDelim)
 	return lexText
@@ -956,7 +956,7 @@ func lexLiteral(l *lexer) stateFn {
 		return l.errorf("expected closing tag after {literal..")
 	}
 	if l.doubleDelim && l.next() != '}' {
-		return l.errorf("expected double closing braces in tag")
+		return l.errorfAt(l.start, "expected double closing braces in tag")
 	}
 	l.emit(itemRightDelim)
 
